@@ -65,17 +65,23 @@ def generate(rng, tier):
             p = rng.choice(paths)
             fmt = rng.choice(fmts)
             op = {"op": "write", "fmt": fmt, "path": p, "map": _rmap(rng, hi),
-                  "dx": 10 ** rng.uniform(-3, 2), "wvl": rng.choice([0.6328, 0.6328, rng.uniform(0.3, 11.0)])}
+                  "dx": 10 ** rng.uniform(-3, 2), "wvl": rng.choice([0.6328, 0.6328, rng.uniform(0.3, 11.0), rng.uniform(0.19, 0.63)])}
             if fmt == "codev" and rng.random() < 0.4:
                 op["cv"] = {"typ": rng.choice(["SUR", "WFR", "wfr"]), "nnb": rng.random() < 0.5}
             if fmt == "ifg" and rng.random() < 0.05:
                 op["dx"] = 0.0          # the library's "no lateral calibration" marker
+            if fmt == "ifg" and rng.random() < 0.3:
+                # the Interferogram has a life before it is saved: steps that only touch the calibration
+                op["prep"] = [rng.choice([["strip_latcal"], ["latcal", round(10 ** rng.uniform(-2, 1), 4)],
+                                          ["strip_latcal"], ["recenter"], ["read_r"]])
+                              for _ in range(rng.randint(1, 3))]
             prev = [j for j, o in enumerate(ops) if o["op"] == "write" and "reuse" not in o]
             if prev and rng.random() < 0.3:
                 # the caller saves the very same array / Interferogram object once more
                 j = rng.choice(prev)
                 op["reuse"] = j
                 op["map"], op["dx"], op["wvl"] = ops[j]["map"], ops[j]["dx"], ops[j]["wvl"]
+                op.pop("prep", None)
                 if (op["fmt"] == "codev") != (ops[j]["fmt"] == "codev"):
                     op["fmt"] = ops[j]["fmt"]          # value ranges are chosen per format family
             if cfg["faults"] and rng.random() < 0.35:
@@ -201,7 +207,17 @@ def _setup():
     return w
 
 
-def _write(w, fmt, path, z, dx, wvl, cv=None, holder=None):
+def _dx_after(dx, prep):
+    """Spacing the Interferogram carries after its calibration-only steps (documented effects)."""
+    for step in (prep or []):
+        if step[0] == "strip_latcal":
+            dx = 1.0
+        elif step[0] == "latcal":
+            dx = float(step[1])
+    return dx
+
+
+def _write(w, fmt, path, z, dx, wvl, cv=None, holder=None, prep=None):
     """Call the real writer with the caller's own array object (no defensive copy:
     that is what user code does).  `holder` keeps the caller's Interferogram."""
     from prysm.interferogram import Interferogram
@@ -215,9 +231,28 @@ def _write(w, fmt, path, z, dx, wvl, cv=None, holder=None):
         if holder is not None:
             if holder.get("ifg") is None:
                 holder["ifg"] = Interferogram(z, dx=dx, wavelength=wvl)
+                for step in (prep or []):
+                    if step[0] == "strip_latcal":
+                        holder["ifg"].strip_latcal()
+                    elif step[0] == "latcal":
+                        holder["ifg"].latcal(step[1])
+                    elif step[0] == "recenter":
+                        holder["ifg"].recenter()
+                    elif step[0] == "read_r":
+                        holder["ifg"].r
             holder["ifg"].save_zygo_dat(path)
         else:
-            Interferogram(z, dx=dx, wavelength=wvl).save_zygo_dat(path)
+            i0 = Interferogram(z, dx=dx, wavelength=wvl)
+            for step in (prep or []):
+                if step[0] == "strip_latcal":
+                    i0.strip_latcal()
+                elif step[0] == "latcal":
+                    i0.latcal(step[1])
+                elif step[0] == "recenter":
+                    i0.recenter()
+                elif step[0] == "read_r":
+                    i0.r
+            i0.save_zygo_dat(path)
     elif fmt == "codev":
         if cv:
             pio.write_codev_gridint(z, path, typ=cv["typ"], nnb=cv["nnb"])
@@ -565,15 +600,19 @@ def execute(plan):
                 objs[i] = holder
             z = holder["z"]
             zfix = holder["pristine"]
+            if fmt == "ifg" and "ifg_dx" not in holder:
+                # the long-lived Interferogram keeps the calibration and wavelength it was built with
+                holder["ifg_dx"] = _dx_after(op["dx"], op.get("prep"))
+                holder["ifg_wvl"] = op["wvl"]
+            dx_eff = holder["ifg_dx"] if fmt == "ifg" else op["dx"]
+            wvl_eff = holder["ifg_wvl"] if fmt == "ifg" else op["wvl"]
             ev.update({"fmt": fmt, "path": path, "shape": list(zfix.shape)})
             fault = op.get("fault")
             # fault-free dry run to a scratch path: the complete byte image of this write
             full = None
             dry_exc = None
             try:
-                with warnings.catch_warnings():
-                    warnings.simplefilter("ignore")
-                    _write(w, "zygo_path" if fmt in ("zygo_file",) else fmt, "/sim/.dry", zfix.copy(), op["dx"], op["wvl"], op.get("cv"))
+                _write(w, "zygo_path" if fmt in ("zygo_file",) else fmt, "/sim/.dry", zfix.copy(), dx_eff, wvl_eff, op.get("cv"))
                 full = w.disk.files.pop("/sim/.dry")
             except Exception as e:
                 dry_exc = e
@@ -588,11 +627,10 @@ def execute(plan):
                 w.disk.files.pop(path, None)
                 events.append(ev)
                 continue
-            entry = {"fmt": fmt, "path": path, "map": np.array(zfix, dtype=np.float64), "dx": op["dx"], "wvl": op["wvl"],
+            entry = {"fmt": fmt, "path": path, "map": np.array(zfix, dtype=np.float64),
+                     "dx": dx_eff, "wvl": wvl_eff,
                      "full": full, "f32": zfix.dtype == np.float32}
-            with warnings.catch_warnings():
-                warnings.simplefilter("ignore")
-                entry["layout"] = _layout(w, fmt, z.shape, op["dx"], op["wvl"])
+            entry["layout"] = _layout(w, fmt, z.shape, dx_eff, wvl_eff)
             spans = _sample_spans(w, entry)
             if fault:
                 at = _resolve(fault["where"], entry, spans)
@@ -604,9 +642,7 @@ def execute(plan):
             out = "ok"
             prev_entry, prev_bytes = model.get(path), w.disk.files.get(path)
             try:
-                with warnings.catch_warnings():
-                    warnings.simplefilter("ignore")
-                    _write(w, fmt, path, z, op["dx"], op["wvl"], op.get("cv"), holder)
+                _write(w, fmt, path, z, op["dx"], op["wvl"], op.get("cv"), holder, op.get("prep"))
             except SimCrash:
                 out = "crash"
             except Exception as e:
